@@ -275,7 +275,7 @@ func TestVerifC06(t *testing.T) {
 		t.Log("standalone run")
 	}
 	nWidths := c.Pick(8, 12)
-	total := c.Share(c.Pick(2000, 30000))
+	total := c.Share(c.Pick(2000, 16000))
 	for n := 0; n < total; n++ {
 		if c.Past(n) || c.Stop() {
 			break
